@@ -31,6 +31,7 @@ corresponding part of a from-scratch resolution of the current description.
 """
 from __future__ import annotations
 
+import contextlib
 import copy
 import json
 import logging
@@ -639,6 +640,114 @@ def gen_platform_names(rng, per_name, names=None):
 
 
 # ----------------------------------------------------------------------------------------
+# ambient settings of the process
+# ----------------------------------------------------------------------------------------
+# The property quantifies over histories of calls, not over how the process that makes them is configured: a user may
+# legitimately run with any logging verbosity (`elaunch.py -l <level>` sets the level of the root logger; 10 = debug, the
+# code base logs at the custom levels 14 / 15 / 19 too; a deployment may turn up one named logger only).  Code guarded by
+# `log.isEnabledFor(...)` / executed while a log record is formatted (`%r` of an object, a "changes from X to Y" report
+# that asks the interface for X) runs only then - so a share of every stream runs with logging ENABLED: K._quiet()'s
+# process-wide logging.disable() is lifted, the chosen logger(s) get the chosen level, and a handler that really formats
+# every record (lazy `%` arguments are evaluated) and throws the text away replaces the root handlers.
+LOG_LEVELS = [1, 5, 10, 13, 14, 15, 19]
+LOG_SCOPES = ["root", "root", "root", "flowir", "every"]
+
+
+class _Swallow(logging.Handler):
+    """formats every record (so that lazily formatted arguments are evaluated) and discards the text"""
+
+    def emit(self, record):
+        try:
+            self.format(record)
+        except Exception:
+            pass
+
+
+def pick_ambient(rng):
+    return {"log": {"scope": rng.choice(LOG_SCOPES), "level": rng.choice(LOG_LEVELS)}}
+
+
+def maybe_ambient(rng, case, share):
+    """`share` of the cases run in a process with verbose logging"""
+    if rng.random() < share and "ambient" not in case:
+        case = dict(case, ambient=pick_ambient(rng))
+    return case
+
+
+def ambient_tag(case):
+    log = (case.get("ambient") or {}).get("log")
+    return "ambient:logging:%s:%s" % (log["scope"], log["level"]) if log else "ambient:logging:disabled"
+
+
+@contextlib.contextmanager
+def ambient(case):
+    """the process-level settings of the case for the duration of its run (restored afterwards)"""
+    log = (case.get("ambient") or {}).get("log")
+    if not log:
+        yield
+        return
+    root = logging.getLogger()
+    manager = root.manager
+    saved_disable = manager.disable
+    saved_handlers = list(root.handlers)
+    saved_levels = []
+    handler = _Swallow(level=1)
+
+    def set_level(lg):
+        saved_levels.append((lg, lg.level))
+        lg.setLevel(log["level"])
+
+    try:
+        root.handlers[:] = [handler]
+        if log["scope"] == "flowir":
+            set_level(logging.getLogger("flowir"))
+        else:
+            set_level(root)
+            if log["scope"] == "every":
+                # loggers whose level was set explicitly somewhere do not follow the root: turn every one up
+                for name in sorted(manager.loggerDict):
+                    lg = manager.loggerDict[name]
+                    if isinstance(lg, logging.Logger) and name.split(".")[0] not in QUIET_LIBRARIES:
+                        set_level(lg)
+        logging.disable(logging.NOTSET)
+        yield
+    finally:
+        for lg, level in reversed(saved_levels):
+            lg.setLevel(level)
+        root.handlers[:] = saved_handlers
+        logging.disable(saved_disable)
+
+
+# third-party libraries whose own debug output is of no concern here (and slow)
+QUIET_LIBRARIES = {"cwltool", "rdflib", "salad", "urllib3", "kubernetes", "matplotlib", "asyncio", "concurrent",
+                   "requests", "docker", "pymongo", "keyring", "PIL", "prov", "schema_salad", "reactivex", "rx"}
+
+
+def gen_ambient(rng, per_setting, levels=None):
+    """systematic stream: for every (logger scope, level): ask everything on every platform - ONE update of one
+    component / one variable (per_setting of the ways, None = each) - ask everything - a second update of the same
+    kind - ask everything (an answer that lags one update behind shows at the second sweep at the latest)"""
+    out = []
+    names = ["c0", "c1", "d"]
+    for scope in ("root", "flowir", "every"):
+        for level in (levels or LOG_LEVELS):
+            k = rng.randrange(len(names))
+            i, n = k % 2, names[k]
+            ways = component_updates(rng, i, n, rng.randint(4, 12))
+            P = rng.choice(PLATFORMS)
+            ways += [[setter_op(kind, i, n, v, P, rng.choice(["vv", 7, "%(g)s"]))] for kind, v in SETTER_SITES]
+            for calls in (ways if per_setting is None else rng.sample(ways, per_setting)):
+                second = copy.deepcopy(calls)
+                for o in second:
+                    if "value" in o:
+                        o["value"] = "second"
+                ops = [{"op": "sweep"}] + copy.deepcopy(calls) + [{"op": "sweep"}] + second + [{"op": "sweep"}]
+                out.append({"kind": "history", "meta": False, "doc": base_doc(names), "ops": ops,
+                            "ambient": {"log": {"scope": scope, "level": level}}})
+    return out
+
+
+# ----------------------------------------------------------------------------------------
 # real code
 # ----------------------------------------------------------------------------------------
 
@@ -744,7 +853,13 @@ def expand(ops, conc_ids):
 
 
 def run_history(case, want_model_ops=True):
-    """runs the history on the real code; returns (flat ops incl. sweep queries, impl answers, oracle failures)"""
+    """runs the history on the real code, in a process configured as the case says (logging verbosity); returns
+    (flat ops incl. sweep queries, impl answers, oracle failures)"""
+    with ambient(case):
+        return _run_history(case)
+
+
+def _run_history(case):
     F = _F()
     active = case.get("active", "default")
     platforms = list(case["doc"].get("platforms") or PLATFORMS)
@@ -975,7 +1090,13 @@ def view_model_op(op, flags):
 
 
 def run_ghistory(case):
-    """runs a graph-layer history on the real objects; returns (desc, platform, model ops, answers, failures)"""
+    """runs a graph-layer history on the real objects, in a process configured as the case says (logging verbosity);
+    returns (desc, platform, model ops, answers, failures)"""
+    with ambient(case):
+        return _run_ghistory(case)
+
+
+def _run_ghistory(case):
     F = _F()
     scratch = tempfile.mkdtemp(prefix="c08g-")
     try:
@@ -1185,7 +1306,50 @@ def classify_update_alias(what, case, detail):
     return any(shared.count(t) >= 2 for t in set(shared))
 
 
+LABEL_COLLISION = "cache-label-names-two-components"
+
+
+def colliding_labels(case):
+    """two different (platform, stage, component name) triples of the case whose cache label
+    `component:<platform>:stage<i>:<name>` is the same text (platform `q:stage0:a` + stage1.b  ==  platform `q` +
+    stage0 `a:stage1:b`), or None"""
+    doc = case.get("doc") or {}
+    plats = list(dict.fromkeys(["default"] + list(doc.get("platforms") or PLATFORMS)))
+    ids = [(c.get("stage"), c.get("name")) for c in doc.get("components") or []]
+    for o in case.get("ops") or []:
+        u = o.get("u") if isinstance(o.get("u"), dict) else o
+        if u.get("name") is not None and u.get("stage") is not None:
+            ids.append((u["stage"], u["name"]))
+    seen = {}
+    for P in plats:
+        for (i, n) in dict.fromkeys(ids):
+            text = "%s:stage%s:%s" % (P, i, n)
+            if text in seen and seen[text] != (P, i, n):
+                return [list(seen[text]), [P, i, n]]
+            seen[text] = (P, i, n)
+    return None
+
+
+def classify_label_collision(what, case, detail):
+    """the cache label is plain string formatting of (platform, stage, name): a platform name that contains
+    `:stage<i>:<name>` makes two different triples share one label, and a query of one is answered with the cached
+    configuration of the other (fixes/C08-cache-label-collision.diff)"""
+    return what == LABEL_COLLISION and colliding_labels(case) is not None
+
+
 _REGISTERED = []
+_REGISTERED_COLLISION = []
+
+
+def label_collision_registered():
+    """is the finding in known_findings.json (maintained by the coordinator)? until then such cases are tagged, not run"""
+    if not _REGISTERED_COLLISION:
+        from harness.common import load_known
+        try:
+            _REGISTERED_COLLISION.append(any(e.get("classifier") == "c08_cache_label_collision" for e in load_known("C08")))
+        except Exception:
+            _REGISTERED_COLLISION.append(False)
+    return _REGISTERED_COLLISION[0]
 
 
 def update_alias_registered():
@@ -1201,12 +1365,14 @@ def update_alias_registered():
 
 
 CLASSIFIERS = {"c08_component_name_with_regex_metacharacters": classify_regex_name,
-               "c08_update_component_aliases_template": classify_update_alias}
+               "c08_update_component_aliases_template": classify_update_alias,
+               "c08_cache_label_collision": classify_label_collision}
 
 
 def name_tags(case):
     names = case.get("names") or []
     tags = ["platform-name:" + name_class(n) for n in names] or ["platform-name:p"]
+    tags.append(ambient_tag(case))
     if len(names) == 2:
         tags.append("platforms:two-renamed")
     if case.get("active"):
@@ -1262,6 +1428,19 @@ def again_stream(ctx, first_runs, n_plain, n_graph):
     sample = plain[:n_plain] + graph[:n_graph]
     rng.shuffle(sample)
     for case, first in sample:
+        # half of them in a process configured differently (logging enabled <-> disabled, another logger / level):
+        # no answer of the interface may depend on how verbose the process is
+        slug = "result-depends-on-earlier-cases"
+        if rng.random() < 0.5:
+            first_ambient = case.get("ambient")
+            case = dict(case)
+            case.pop("ambient", None)
+            if not first_ambient or rng.random() < 0.3:
+                case["ambient"] = pick_ambient(rng)
+            if case.get("ambient") != first_ambient:
+                slug = "result-depends-on-the-logging-configuration"
+                case["first_run_ambient"] = first_ambient
+                ctx.tag("again:other-logging-configuration")
         if case.get("kind") == "ghistory":
             second = run_ghistory(case)[3]
         else:
@@ -1270,7 +1449,7 @@ def again_stream(ctx, first_runs, n_plain, n_graph):
         a, b = [coarse(x) for x in first], [coarse(x) for x in second]
         if canon(a) != canon(b):
             k = next((k for k, (x, y) in enumerate(zip(a, b)) if canon(x) != canon(y)), min(len(a), len(b)))
-            ctx.fail("result-depends-on-earlier-cases", case,
+            ctx.fail(slug, case,
                      {"index": k, "first_time": a[k] if k < len(a) else None,
                       "at_the_end_of_the_run": b[k] if k < len(b) else None})
 
@@ -1278,6 +1457,32 @@ def again_stream(ctx, first_runs, n_plain, n_graph):
 def check_histories(ctx, cases):
     runs = []
     reqs = []
+    kept = []
+    for case in cases:
+        pair = colliding_labels(case)
+        if pair is None:
+            kept.append(case)
+            continue
+        # finding on the unchanged tree (fixes/C08-cache-label-collision.diff): two triples of this case share one
+        # cache label.  The model keeps labels as triples and the from-scratch objects collide in the same way, so
+        # the case says nothing else; it is reported under one slug (accepted by c08_cache_label_collision once the
+        # coordinator has registered the finding; until then only tagged)
+        ctx.tag("finding:" + LABEL_COLLISION)
+        if not label_collision_registered():
+            continue
+        try:
+            F = _F()
+            conc = F.FlowIRConcrete(copy.deepcopy(case["doc"]), case.get("active", "default"), {})
+            wrong = []
+            for (P, i, n) in pair:
+                res = conc.get_component_configuration((i, n), raw=False, include_default=True, platform=P)
+                if (res.get("stage"), res.get("name")) != (i, n):
+                    wrong.append({"asked": [P, i, n], "answered": [res.get("stage"), res.get("name")]})
+        except Exception:
+            wrong = []
+        if wrong:
+            ctx.fail(LABEL_COLLISION, case, {"labels": pair, "wrong": wrong})
+    cases = kept
     for case in cases:
         if case.get("kind") == "ghistory":
             desc, platform, flat, answers, failures = run_ghistory(case)
@@ -1379,6 +1584,10 @@ def run(ctx):
     ctx.assumptions = ["mutators are called on the existing platforms only",
                        "platform names are non-empty (the empty name is an alias of the active platform); names with line "
                        "breaks are in the pools",
+                       "no two (platform, stage, component name) triples of a case spell the same cache label "
+                       "component:<platform>:stage<i>:<name> (finding cache-label-names-two-components on the unchanged "
+                       "tree, fixes/C08-cache-label-collision.diff: such cases are tagged and, once the finding is "
+                       "registered, reported under that slug)",
                        "update_component is given a body with the same (stage, name)",
                        "values are strings / integers / booleans / floats / None / short lists",
                        "the caller does not mutate a VALUE (list) after handing it to a setter, nor the dictionary it "
@@ -1429,6 +1638,12 @@ def run(ctx):
         {"op": "setVar", "stage": 0, "name": "c0", "var": "x", "value": "2"},
         {"op": "read", "what": "instance", "platform": "p", "fill_in_all": False, "prim": True, "inject": False},
         {"op": "sweep"}]})
+    # ambient settings: a share of every stream runs in a process with logging enabled (root / one logger / every
+    # logger at a level between 1 and 19), plus the systematic stream over every (scope, level)
+    cases = [maybe_ambient(rng, c, 0.5 if len(c["ops"]) <= 6 else 0.35) for c in cases]
+    cases.extend(gen_ambient(rng, 2 if quick else 8))
+    gworlds = [rng.choice(GL.WORLDS)] if quick else GL.WORLDS
+    cases.extend(dict(c, ambient=pick_ambient(rng)) for c in gen_gtriples(rng, gworlds))
     first_runs = check_histories(ctx, cases)
     again_stream(ctx, first_runs, 25 if quick else 150, 4 if quick else 20)
 
